@@ -185,7 +185,7 @@ example : wellFormed demoCallbacks 0 = true ∧ inlineForestBy (ownHeight demoCa
 /-! ## Part A' — the per-class pairs -/
 
 open Cls in
-/-- **Every pair of the table is field-faithful** (`Model/C02Records.lean`: 43 classes — the ROIs incl.
+/-- **Every pair of the table is field-faithful** (`Model/C02Records.lean`: 44 classes — the ROIs incl.
 `theta`, the subset states incl. the operator table, the composite states re-created from `_type`,
 `AffineCoordinates`, the link helper records, the built-in containers that occur inlined): the transcribed
 loader, dispatched on `_type`, applied to what the transcribed saver returns rebuilds an object of the
